@@ -919,6 +919,7 @@ func (s *psim) checkSub(o *subRec, final bool) {
 		}
 	}
 	// 2. cancellation
+	wasPrecise := !o.imprecise
 	if !o.imprecise {
 		if cancelled != o.mCancelled || (cancelled && reason != o.mErr) {
 			switch {
@@ -959,7 +960,7 @@ func (s *psim) checkSub(o *subRec, final bool) {
 	told := cancelled && reason == "cap"
 	lo := -1
 	switch {
-	case !o.imprecise:
+	case wasPrecise:
 		lo = len(rem) // exact model: exp holds exactly what fitted into the buffer
 		if o.mCancelled && o.mErr == "cap" && !cancelled && o.overflow > 0 {
 			s.lost(o, o.overflow, "had a full buffer at")
